@@ -7,6 +7,15 @@ CLAIMED = {
  "C14": ("runtime monitoring: tiling/position invariant monitor over lexer token streams + range-slice re-parse monitor over parsed ASTs",
          "Every token stream the three lexer modes produce for generated, corpus and mutated byte strings (invalid UTF-8, CR/LF mixes, BOMs, random start positions) is checked against the tiling invariant and an independent newline/grapheme position counter; every range recorded in the AST of generated error-free configurations is sliced and re-parsed. Held on the executions observed; no claim beyond them.",
          "Trusts go-textseg grapheme segmentation as the definition of a column, cty value equality, and the Go runtime.", "DESIGN.md §5 C14"),
+ "C15": ("runtime monitoring: panic / CPU-time / determinism / diagnostic well-formedness monitors around all parsing entry points on mutated near-valid inputs in crash-isolated workers, plus a fixed blow-up ladder",
+         "Twelve entry points are called twice each on corpus, generated and mutated inputs (native and JSON); the monitors judge panics (recover + process isolation), CPU seconds per call, equality of the two results, non-nil results, error diagnostics for unusable results and every diagnostic's severity/summary/ranges; the resulting bodies are pushed through Content/PartialContent/JustAttributes with schemas built from their own identifiers and error-free expressions are evaluated in known/unknown/marked/nil scopes. Held on the executions observed.",
+         "Trusts process CPU time as a load-independent clock; a panic is attributed to hcl when an hcl frame is below the panicking frame and above the harness.", "DESIGN.md §5 C15"),
+ "C09": ("runtime monitoring: token-identity, re-parse/value-equivalence and idempotence monitors around hclwrite.Format",
+         "Format is run on generated error-free configurations in noisy layouts and on adjacency micro-cases; the monitor compares the LexConfig token sequences of input and output, requires the output to parse to the same attributes/blocks/labels with equal expression values in a generated scope, and requires Format(Format(x)) == Format(x). Held on the executions observed.",
+         "Trusts hclsyntax.LexConfig/ParseConfig as the definition of tokens and meaning (monitored separately by C14/C02) and cty equality.", "DESIGN.md §5 C09"),
+ "C10": ("runtime monitoring: load/save round-trip monitor around hclwrite.ParseConfig (token identity with the source, byte identity with Format, structural agreement with hclsyntax)",
+         "hclwrite.ParseConfig(src).Bytes() is compared token by token with src and byte by byte with Format(src) on generated configurations, traversal-shape micro-cases in every expression position and comment-placement micro-cases; attributes, blocks, labels and the token text of every variable reference exposed by the tree are compared with hclsyntax's view of the same source. Held on the executions observed.",
+         "Trusts hclsyntax as the reference view of the source.", "DESIGN.md §5 C10"),
 }
 
 NOT_YET = "monitor designed in DESIGN.md §5 but not yet built in this tree; will be claimed once its check is registered"
